@@ -85,17 +85,23 @@ namespace rkcommon {
   /*! returns the extension */
   std::string FileName::ext() const
   {
-    size_t pos = filename.find_last_of('.');
+    const std::string b = base();
+    size_t pos          = b.find_last_of('.');
     if (pos == std::string::npos)
       return "";
-    return filename.substr(pos + 1);
+    return b.substr(pos + 1);
   }
 
   /*! returns the extension */
   FileName FileName::dropExt() const
   {
+    size_t start = filename.find_last_of(path_sep);
+    if (start == std::string::npos)
+      start = 0;
+    else
+      start++;
     size_t pos = filename.find_last_of('.');
-    if (pos == std::string::npos)
+    if (pos == std::string::npos || pos < start)
       return filename;
     return filename.substr(0, pos);
   }
